@@ -87,11 +87,15 @@ func (fl *FrameLoop) Current() *cptvframe.Frame {
 	return fl.frames[fl.currentIndex]
 }
 
-// CopyRecent returns a copy of the previous frame.
+// CopyRecent returns a copy of the previous frame, or nil if there is none yet.
 func (fl *FrameLoop) CopyRecent() *cptvframe.Frame {
 	fl.mu.Lock()
 	defer fl.mu.Unlock()
 
+	if fl.currentIndex == 0 && !fl.bufferFull {
+		// no frame has been completed yet, the previous slot is still blank
+		return nil
+	}
 	previousIndex := (fl.currentIndex - 1 + fl.size) % fl.size
 	return fl.frames[previousIndex].CreateCopy()
 }
